@@ -51,6 +51,16 @@ CLAIMED = {
             'success must reproduce the target up to beta-eta, extend and not modify the seed; first-order patterns must match their instances.',
             'Trusted: mc/ref.py (substitution, beta-eta normal forms). Only type-compatible pairs. Pattern size <=6 (thorough 7).',
             'DESIGN.md §3 C09'),
+    'C08': ('exploration',
+            'bounded exhaustive enumeration of typed terms x erasure patterns x contexts and of untyped skeletons on the real type inference',
+            'Every well-typed term up to the size bound over the signature of theory list, with every erasure pattern of its '
+            'annotations and contexts declaring all/none/one variable, plus conflicting annotations, plus all untyped skeletons up '
+            'to the bound (incl. occurs-check cycles spread over three unifications) are given to infertype.type_infer; the result '
+            'must type-check, keep shape/annotations/declared types, give each variable one type, use constants at instances of '
+            'their declarations, contain no internal type variable, recover the original when variable types are declared, and '
+            'failures must be the module\'s own errors (no RecursionError, no hang).',
+            'Trusted: reference type checker in mc/ref.py; theory signature as loaded. Term size <=6 (thorough 7), skeletons <=3 (4) applications.',
+            'DESIGN.md §3 C08'),
 }
 
 PENDING_REASON = 'check not built yet in this round (planned, see DESIGN.md §3/§7); not claimed until its machinery exists'
